@@ -16,7 +16,10 @@ from tools import common
 LEVEL = "proof"
 CP_LIMIT = 600          # the proved checker is evaluated on the C++ plan when n*m <= CP_LIMIT
 FMT = ("T1 bal n m u_1..u_n v_1..v_m s_1..s_n d_1..d_m (bal=1: balanceDemand() first); result "
-       "'D demands | S i j a;... | A assignment | O independent optimum' (see harness/transp1d.cpp)")
+       "'D demands | S i j a;... | A assignment | O independent optimum'.  TS n m k u.. v.. (bal s.. d..)*k: k problems on the same "
+       "positions handled one after the other in one process, results joined by ' || '.  TO n m k u.. v.. s.. d.. op_1..op_k: the calls "
+       "op_i (0 solve, 1 assign, 2 balanceDemand, 3 solve then assign) on ONE object; per call 'op # demands before # result of the ONE "
+       "object # result of fresh objects on the object's data' (see harness/transp1d.cpp)")
 
 
 def parse_case(line):
@@ -100,26 +103,132 @@ def statement_verdict(case, o):
     return None
 
 
+def t1_line(bal, n, m, u, v, s, d):
+    return "T1 %d %d %d %s" % (bal, n, m, " ".join(str(x) for x in list(u) + list(v) + list(s) + list(d)))
+
+
+OPNAME = {0: "solve()", 1: "assign()", 2: "balanceDemand()", 3: "solve() then assign()"}
+
+
+def units_of(line, il):
+    """one case line + the implementation's result line -> list of (T1 problem line, T1-style implementation output, label).
+    T1: itself.  TS (problems on shared positions, one after the other): one unit per problem.  TO (calls on ONE object): per call
+    one unit with the parts returned by the ONE object and one unit with the fresh objects' results; the problem of a unit is the
+    object's data before the call (bal=1 for balanceDemand()), as reported by the harness.  None when the output has not that shape."""
+    t = line.split()
+    if t[0] == "T1":
+        return [(line, il, "")]
+    n, m, k = int(t[1]), int(t[2]), int(t[3])
+    x = [int(y) for y in t[4:]]
+    u, v = x[:n], x[n:n + m]
+    if t[0] == "TS":
+        outs = il.split(" || ")
+        if len(outs) != k:
+            return None
+        r = []
+        for q in range(k):
+            o = n + m + q * (1 + n + m)
+            r.append((t1_line(x[o], n, m, u, v, x[o + 1:o + 1 + n], x[o + 1 + n:o + 1 + n + m]), outs[q],
+                      "problem %d of %d solved one after the other on the same positions" % (q + 1, k)))
+        return r
+    # TO
+    s = x[n + m:2 * n + m]
+    ops = x[2 * n + 2 * m:]
+    steps = il.split(" || ")
+    if len(steps) != k:
+        return None
+    r = []
+    for q, st_ in enumerate(steps):
+        f = [y.strip() for y in st_.split(" # ")]
+        if len(f) != 4 or f[0] != str(ops[q]):
+            return None
+        try:
+            before = [int(y) for y in f[1].split()]
+        except ValueError:
+            return None
+        if len(before) != m:
+            return None
+        pl = t1_line(1 if ops[q] == 2 else 0, n, m, u, v, s, before)
+        hist = " ".join(OPNAME[o] for o in ops[:q])
+        r.append((pl, f[2], "call %d, %s, on the ONE object (calls before it: %s)" % (q + 1, OPNAME[ops[q]], hist or "none")))
+        if f[3] != f[2]:
+            r.append((pl, f[3], "fresh objects built from the data of the ONE object after call %d (%s)" % (q + 1, OPNAME[ops[q]])))
+    return r
+
+
+def verdict_line(line, out):
+    """the statement evaluated on every problem / call of one case line; None or the first reason"""
+    us = units_of(line, out)
+    if us is None:
+        return ("a call did not return within the CPU limit / the process died: " if out.startswith("DIED") else "unparsable output (crash?): ") + out[:120]
+    for pl, o, lb in us:
+        try:
+            why = statement_verdict(parse_case(pl), parse_out(o))
+        except (ValueError, IndexError):
+            why = "unparsable output (crash?): " + o[:120]
+        if why:
+            return why + ((" [" + lb + "]") if lb else "")
+    return None
+
+
+def model_of(driver, line, out):
+    us = units_of(line, out) or []
+    if not us:
+        return ""
+    mo = subprocess.run([driver], input="\n".join(x[0] for x in us) + "\n", capture_output=True, text=True).stdout.strip().split("\n")
+    return " || ".join(mo)
+
+
 def _chunk_worker(args):
-    harness, asan, driver, lines = args
-    inp = "\n".join(lines) + "\n"
+    harness, asan, driver, full_lines = args
+    inp = "\n".join(full_lines) + "\n"
     env = common.HARNESS_ENV
     pi = subprocess.run([harness, "run"], input=inp, capture_output=True, text=True, timeout=3000, env=env)
-    pm = subprocess.run([driver], input=inp, capture_output=True, text=True, timeout=3000)
-    impl = pi.stdout.split("\n")
-    model = pm.stdout.split("\n")
-    asan_out = None
+    impl_full = pi.stdout.split("\n")
+    asan_full = None
     if asan:
         pa = subprocess.run([asan, "run"], input=inp, capture_output=True, text=True, timeout=3000, env=env)
-        asan_out = pa.stdout.split("\n")
-    st = {"n": len(lines), "mismatch": [], "nmismatch": 0, "oracle_fail": [], "noracle": 0, "asan_fail": [], "nasan": 0,
+        asan_full = pa.stdout.split("\n")
+    # units: the T1 problems the model is asked, each with the implementation's answer to it
+    lines, impl, origin, label, shapeless = [], [], [], [], []
+    for i, fl in enumerate(full_lines):
+        il = impl_full[i] if i < len(impl_full) else "<missing>"
+        us = [(fl, il, "")] if il.startswith("SKIPPED") else units_of(fl, il)
+        if us is None:
+            shapeless.append((fl, il, "a call did not return within the CPU limit / the process died: " + il[:100] if il.startswith("DIED")
+                              else "unparsable output (crash?): " + il[:120]))
+            continue
+        for pl, o, lb in us:
+            lines.append(pl)
+            impl.append(o)
+            origin.append(i)
+            label.append(lb)
+    pm = subprocess.run([driver], input="\n".join(lines) + "\n", capture_output=True, text=True, timeout=3000)
+    model = pm.stdout.split("\n")
+    st = {"n": len(full_lines), "units": len(lines), "mismatch": [], "nmismatch": 0, "oracle_fail": [], "noracle": 0, "asan_fail": [], "nasan": 0,
           "uncertified": [], "nontrivial": set(), "dist": {}, "skipped": 0}
     dist = st["dist"]
 
     def bump(k, c=1):
         dist[k] = dist.get(k, 0) + c
     cp, cp_idx = [], []
+    for fl, il, why in shapeless:
+        st["noracle"] += 1
+        st["oracle_fail"].append((fl, il, why))
+    if asan_full is not None:
+        for i, fl in enumerate(full_lines):
+            il = impl_full[i] if i < len(impl_full) else "<missing>"
+            al = asan_full[i] if i < len(asan_full) else "<missing>"
+            if al.startswith("SKIPPED") or il.startswith("SKIPPED"):
+                st["skipped"] += al.startswith("SKIPPED")
+            elif al.startswith("DIED") or al != il:
+                st["nasan"] += 1
+                st["asan_fail"].append((fl, il, al))
+    for fl in full_lines:
+        bump("case_lines_" + fl[:2])
     for i, line in enumerate(lines):
+        fl, ifull, lb = full_lines[origin[i]], impl_full[origin[i]], label[i]
+        lb = (" [" + lb + "]") if lb else ""
         il = impl[i] if i < len(impl) else "<missing>"
         ml = model[i] if i < len(model) else "<missing>"
         if il.startswith("SKIPPED"):
@@ -131,14 +240,7 @@ def _chunk_worker(args):
         mcert = mparts[1].strip() if len(mparts) == 2 else "?"
         if ires != mres:
             st["nmismatch"] += 1
-            st["mismatch"].append((line, il, ml))
-        if asan_out is not None:
-            al = asan_out[i] if i < len(asan_out) else "<missing>"
-            if al.startswith("SKIPPED"):
-                st["skipped"] += 1
-            elif al.startswith("DIED") or al != il:
-                st["nasan"] += 1
-                st["asan_fail"].append((line, il, al))
+            st["mismatch"].append((fl, ifull, "problem %s%s: implementation %s; model %s" % (line, lb, il, ml)))
         if mcert == "0" and len(st["uncertified"]) < 5:
             st["uncertified"].append(line)
         case = parse_case(line)
@@ -150,7 +252,7 @@ def _chunk_worker(args):
             o, why = None, "unparsable output (crash?): " + il[:120]
         if why:
             st["noracle"] += 1
-            st["oracle_fail"].append((line, il, why))
+            st["oracle_fail"].append((fl, ifull, why + lb))
             continue
         # distribution / non-triviality
         if o["S"] is None:
@@ -160,7 +262,7 @@ def _chunk_worker(args):
         sol = o["S"]
         cost = sum(q * abs(u[a] - v[b]) for a, b, q in sol)
         if len(sol) >= 2 and cost > 0:
-            st["nontrivial"].add(line)
+            st["nontrivial"].add(fl)
         bump("with_zero_supply", any(x == 0 for x in s))
         bump("with_zero_demand", any(x == 0 for x in d2))
         bump("duplicate_positions", len(set(u)) < n or len(set(v)) < m)
@@ -178,6 +280,7 @@ def _chunk_worker(args):
             cp.append("CP %d %d %s %d %s" % (n, m, " ".join(str(x) for x in u + v + s + d2), len(sol),
                                             " ".join("%d %d %d" % t for t in sol)))
             cp_idx.append((i, cost))
+            bump("plans_of_ONE_object_calls_or_shared_position_sequences_sent_to_the_proved_checker", bool(lb))
     st["certified"] = 0
     if cp:
         pc = subprocess.run([driver], input="\n".join(cp) + "\n", capture_output=True, text=True, timeout=3000)
@@ -189,12 +292,14 @@ def _chunk_worker(args):
             else:
                 st["noracle"] += 1
                 if True:
-                    st["oracle_fail"].append((lines[i], impl[i], "the PROVED certificate checker (check_plan, theorem c14_certificate_sound) rejects "
+                    st["oracle_fail"].append((full_lines[origin[i]], impl_full[origin[i]], (" [" + label[i] + "] " if label[i] else "") + "the PROVED certificate checker (check_plan, theorem c14_certificate_sound) rejects "
                                               "the plan of solve(): it is not a valid plan of minimum cost [checker says %r]" % (out[k] if k < len(out) else "")))
     st["nontrivial"] = len(st["nontrivial"])
     # the shortest failing cases are the ones reported
     for k in ("oracle_fail", "asan_fail", "mismatch"):
-        st[k] = sorted(st[k], key=lambda x: len(x[0]))[:5]
+        # (per kind of case line: a failure that depends on what the process did before shows on T1 lines too, but only the
+        #  self-contained TS / TO lines reproduce it when run alone)
+        st[k] = [y for tag in ("T1", "TS", "TO") for y in sorted([x for x in st[k] if x[0].startswith(tag)], key=lambda x: len(x[0]))[:5]]
     return st
 
 
@@ -213,13 +318,21 @@ def gen_cases(ctx, harness):
     nsmall = len(lines)
     for sd in seeds:
         lines += common.harness_gen(harness, ["rand", sd, nrand // len(seeds)])
-    return lines, nsmall, smalls
+    # state surviving between calls / objects: problems on shared positions one after the other (TS), calls on ONE object (TO)
+    full = 0 if ctx.quick else 1
+    hist = common.harness_gen(harness, ["seqsmall", full]) + common.harness_gen(harness, ["objsmall", full])
+    nhist = (4000, 4000) if ctx.quick else (120000, 120000)
+    for sd in seeds:
+        hist += common.harness_gen(harness, ["seq", sd + 31, nhist[0] // len(seeds)])
+        hist += common.harness_gen(harness, ["obj", sd + 57, nhist[1] // len(seeds)])
+    return lines, nsmall, smalls, hist
 
 
 def run_cases(harness, asan, driver, lines):
     nchunks = max(1, min(common.NCPU, len(lines) // 1000 + 1))
-    size = (len(lines) + nchunks - 1) // nchunks
-    chunks = [(harness, asan, driver, lines[i:i + size]) for i in range(0, len(lines), size)]
+    # blocks of 256 consecutive case lines dealt round-robin: the heavier streams are spread over all workers
+    blocks = [lines[i:i + 256] for i in range(0, len(lines), 256)]
+    chunks = [(harness, asan, driver, [l for b in blocks[k::nchunks] for l in b]) for k in range(nchunks)]
     with Pool(nchunks) as p:
         return p.map(_chunk_worker, chunks)
 
@@ -239,7 +352,7 @@ def asan_summary(err):
 
 def vm_crosscheck(driver, lines):
     """a small subset evaluated inside Coq (vm_compute) against the extracted code"""
-    sub = [l for l in lines if int(l.split()[2]) <= 4 and int(l.split()[3]) <= 4 and l.split()[1] == "0"]
+    sub = [l for l in lines if l.startswith("T1 ") and int(l.split()[2]) <= 4 and int(l.split()[3]) <= 4 and l.split()[1] == "0"]
     sub = sub[:: max(1, len(sub) // 40)][:40]
     pm = subprocess.run([driver], input="\n".join(sub) + "\n", capture_output=True, text=True)
 
@@ -272,9 +385,12 @@ def run(ctx):
     harness = common.build_harness("transp1d")
     asan = common.build_harness("transp1d", "asan-nosio")
     driver = common.build_driver("transp1d")
-    lines, nsmall, smalls = gen_cases(ctx, harness)
+    lines, nsmall, smalls, hist = gen_cases(ctx, harness)
+    nhist = len(hist)
     corp = common.corpus("C14", "T1 ")
-    lines = corp + lines
+    # the self-contained history cases first: when a defect makes the workers die / hang, the budget of crashes is spent on
+    # cases that reproduce when run alone
+    lines = hist + corp + lines
     stats = run_cases(harness, asan, driver, lines)
     total = sum(s["n"] for s in stats)
     mism = sorted([m for s in stats for m in s["mismatch"]], key=lambda x: len(x[0]))
@@ -295,15 +411,12 @@ def run(ctx):
             continue
         seen.add(line)
         out1, _ = run_single(harness, line)
-        try:
-            why1 = statement_verdict(parse_case(line), parse_out(out1))
-        except (ValueError, IndexError):
-            why1 = "unparsable output (crash?): " + out1[:120]
-        if why1 is None and "PROVED certificate" in why:
+        why1 = verdict_line(line, out1)
+        if why1 is None and "PROVED certificate" in why and out1 == il:
             why1 = why
         if why1 is None:
             continue
-        mo = subprocess.run([driver], input=line + "\n", capture_output=True, text=True).stdout.strip()
+        mo = model_of(driver, line, out1)
         aout, aerr = run_single(asan, line)
         reported += 1
         ctx.violation("Transportation1d violates C14 on a concrete instance: " + why1,
@@ -359,9 +472,20 @@ def run(ctx):
         "rule": "exhaustive: every instance with 1..N sources, 1..M sinks, positions 0..P, supplies 0..SMAX, demands 0..DMAX for (N,M,P,SMAX,DMAX) in %s "
                 "(supply > demand -> balanceDemand first); random (seeded splitmix64): 1..120 sources, 1..40 sinks, positions up to 10^8 and negative, "
                 "0-45%% zero supplies/demands, duplicate positions, sources on sinks, slack / exact balance / balanceDemand, assignment problems. "
-                "non-trivial = the plan has >= 2 entries and positive cost; distinct = distinct case lines" % (smalls,),
-        "exhaustive": True, "exhaustive_cases": nsmall, "random_cases": total - nsmall - len(corp), "corpus_cases": len(corp),
-        "samples": [lines[len(corp) + nsmall // 2], lines[len(corp) + nsmall + 1], lines[-1][:400]],
+                "STATE BETWEEN CALLS / OBJECTS (%d case lines): TS = 2..4 problems (then the same in reverse order) on the SAME source and sink "
+                "position vectors, differing in which demands / supplies are zero (half of them only in that), solved one after the other in "
+                "one process and thread, each compared with the model and the statement like a T1 case; exhaustively all ordered pairs of "
+                "zero-demand patterns A, B, A on all positions in {0..2} for 1..2 sources x 2..3 sinks (quick: without 2x3); TO = 2..6 calls "
+                "(solve / assign / balanceDemand / solve+assign; fixed patterns such as refused solve, balanceDemand, solve, assign and random "
+                "ones) on ONE object, about half with supply > demand at first so that the first call is refused, zero demands 0-60%%: every "
+                "call's result is compared with the model on the object's data before the call, with fresh objects on the same data, and "
+                "with the statement; a call that does not return within 6 s CPU is a violation; exhaustively 1..2 sources, 1..3 sinks, "
+                "positions 0..1, supplies/demands 0..2 under 3 call patterns (quick: without 2x3). "
+                "non-trivial = the plan has >= 2 entries and positive cost; distinct = distinct case lines" % (smalls, nhist),
+        "exhaustive": True, "exhaustive_cases": nsmall, "random_cases": total - nsmall - len(corp) - nhist, "state_between_calls_case_lines": nhist,
+        "problems_sent_to_the_model": sum(s["units"] for s in stats), "corpus_cases": len(corp),
+        "samples": [lines[nhist + len(corp) + nsmall // 2], lines[nhist + len(corp) + nsmall + 1], lines[-1][:400],
+                    hist[len(hist) // 5], hist[len(hist) // 2][:300], hist[-1][:400], hist[-2][:400]],
         "distribution": dist,
         "cpp_plans_accepted_by_proved_checker": sum(s["certified"] for s in stats),
         "asan_variant": "asan-nosio (address + bounds/pointer-overflow/null/alignment/vla-bound; signed-integer-overflow NOT enabled: the "
@@ -390,15 +514,15 @@ def replay(ctx, path):
     driver = common.build_driver("transp1d")
     out, _ = run_single(harness, case)
     aout, aerr = run_single(asan, case)
-    mo = subprocess.run([driver], input=case + "\n", capture_output=True, text=True).stdout.strip()
-    try:
-        why = statement_verdict(parse_case(case), parse_out(out))
-    except (ValueError, IndexError):
-        why = "unparsable output (crash?)"
+    mo = model_of(driver, case, out)
+    why = verdict_line(case, out)
     print("case :", case)
     print("impl :", out)
     print("asan :", aout, asan_summary(aerr))
     print("model:", mo)
     print("statement:", why or "holds on this output")
-    bad = why is not None or aout.startswith("DIED") or aout != out or out.rsplit(" | O", 1)[0].strip() != mo.rsplit(" | C ", 1)[0].strip()
+    us = units_of(case, out) or []
+    differs = [(pl, o, m_) for (pl, o, lb), m_ in zip(us, mo.split(" || ")) if o.rsplit(" | O", 1)[0].strip() != m_.rsplit(" | C ", 1)[0].strip()]
+    print("model differs on:", differs[:2])
+    bad = why is not None or aout.startswith("DIED") or aout != out or bool(differs) or not us
     return 1 if bad else 0
